@@ -780,10 +780,31 @@ theorem liveRows_all_dead (l l' : List (Row × Bool)) (hs : l'.Sublist l) (h : l
   have := List.all_eq_true.1 h x (hs.subset hx)
   simpa using this
 
+/-- a stop condition is sound when it only fires on a batch in which some row already violates
+the upper bound (then, the stream being key-sorted, every later row violates it too) -/
+def StopSound (stop : Nat → Nat → Nat → Bool) : Prop :=
+  ∀ lo hi len, 0 < len → lo ≤ len → hi ≤ len → stop lo hi len = true → hi < len
+
+theorem firstIdx_le {α : Type} (p : α → Bool) (l : List α) : firstIdx p l ≤ l.length := by
+  unfold firstIdx
+  exact (List.takeWhile_sublist _).length_le
+
+theorem firstIdx_lt_exists {α : Type} (p : α → Bool) (l : List α) (h : firstIdx p l < l.length) : ∃ x ∈ l, p x = true := by
+  induction l with
+  | nil => simp [firstIdx] at h
+  | cons a l ih =>
+    cases hp : p a with
+    | true => exact ⟨a, by simp, hp⟩
+    | false =>
+      have : firstIdx p (a :: l) = firstIdx p l + 1 := by simp [firstIdx, hp]
+      rw [this] at h
+      obtain ⟨x, hx, hpx⟩ := ih (by simpa using h)
+      exact ⟨x, by simp [hx], hpx⟩
+
 /-- Core of the row-set iterator: over ANY segmentation into batches of a stream on which the
 lower-bound test and the upper-bound violation are monotone (a key-sorted stream), the masks and
 the early stop return exactly the live rows in range. -/
-theorem scanBatches_exact (fc : Nat) (rg : KeyRange) (bs : List (List (Row × Bool)))
+theorem scanBatches_exact (hstop : StopSound Gen.rangeStop) (fc : Nat) (rg : KeyRange) (bs : List (List (Row × Bool)))
     (h1 : Mono (fun x : Row × Bool => lowerOk rg.lo (Row.at x.1 fc)) bs.flatten)
     (h2 : Mono (fun x : Row × Bool => upperBad rg.hi (Row.at x.1 fc)) bs.flatten) :
     scanBatches fc (some rg) bs
@@ -805,17 +826,19 @@ theorem scanBatches_exact (fc : Nat) (rg : KeyRange) (bs : List (List (Row × Bo
       rw [sliceRange_eq_filter _ _ b h1'.1 h2'.1]
       split
       next hz =>
-        -- early stop: the batch starts beyond the upper bound, so does everything after it
-        cases b with
-        | nil => simp at hlive
-        | cons x xs =>
-          have hbad : upperBad rg.hi (Row.at x.1 fc) = true := (firstIdx_zero_iff _ x xs).1 hz
-          have : bs.flatten.filter (fun x => lowerOk rg.lo (Row.at x.1 fc) && !upperBad rg.hi (Row.at x.1 fc)) = [] := by
-            apply List.filter_eq_nil_iff.2
-            intro y hy
-            have := h2'.2.2 x (by simp) y hy hbad
-            simp [this]
-          rw [this]; simp [liveRows]
+        -- early stop: sound only because some row of this batch already violates the upper bound
+        have hlen : 0 < b.length := by
+          cases b with
+          | nil => simp at hlive
+          | cons x xs => simp
+        have hhi := hstop _ _ _ hlen (firstIdx_le _ b) (firstIdx_le _ b) hz
+        obtain ⟨x, hxb, hbad⟩ := firstIdx_lt_exists _ b hhi
+        have : bs.flatten.filter (fun x => lowerOk rg.lo (Row.at x.1 fc) && !upperBad rg.hi (Row.at x.1 fc)) = [] := by
+          apply List.filter_eq_nil_iff.2
+          intro y hy
+          have := h2'.2.2 x hxb y hy hbad
+          simp [this]
+        rw [this]; simp [liveRows]
       next => rw [ih']
 
 theorem scanBatches_none (fc : Nat) (bs : List (List (Row × Bool))) :
